@@ -337,6 +337,9 @@ func decodeLen(highThreeBits, lowFiveBits byte, additional []byte) (int, error) 
 	if lowFiveBits < 0x18 {
 		length = uint64(lowFiveBits)
 	}
+	if length >= MaxArrayDecodeLength {
+		return 0, fmt.Errorf("length exceeds max size: %d", length)
+	}
 	if highThreeBits == mapMajorType {
 		length *= 2
 	}
